@@ -279,9 +279,12 @@ def _run(case, cfg, w):
         return cb
 
     def ack_payload(tag):
-        # acknowledgements with no, one falsy, one or several arguments
+        # acknowledgements with no, one falsy, one or several arguments; a
+        # single argument that is itself a list / empty list / dict (must
+        # not be mistaken for several arguments on its way over the channel)
         n = int(tag[1:])
-        return [[tag, {'k': 1}], [], [None], [0], [tag], [False, '']][n % 6]
+        return [[tag, {'k': 1}], [], [None], [0], [tag], [False, ''],
+                [[1, tag]], [[]], [{'k': [tag]}], [[[tag]], 2]][n % 10]
 
     mark_all = sc.mark()
     for opi, op in enumerate(case['ops']):
